@@ -34,7 +34,7 @@ for pid,(ref,text) in sorted(props.items()):
         "replay_cmd_template": "./check.sh-replay {path}",
         "engine": "dig-tla",
         "level_claimed": {"category": "model_checking", "text": text, "design_ref": "DESIGN.md section " + ref},
-        "level_note": "Trusted: TLC, the Go toolchain, the harness's comparator and type universe (harness/), the read-only hooks in /repo/verif_hooks.go. Bounded: catalogs of <= 4 constructors / 3 scopes exhaustively, larger ones by seeded random traces.",
+        "level_note": "Trusted: TLC, the Go toolchain, the harness's comparator and type universe (harness/), the hooks in /repo/verif_hooks.go and /repo/verif_trace.go (build tag verif). Bounded: catalogs of <= 4 constructors / 3 scopes exhaustively, larger ones by seeded random traces.",
         "technique": "explicit TLA+ specification (spec/Dig.tla) model-checked with TLC; TLC behaviours replayed on the real code and recorded real executions validated by TLC (spec/DigGen.tla, spec/DigTrace.tla)",
     })
 m = {
@@ -44,7 +44,7 @@ m = {
    "guard": "verif",
    "enable": "go build -tags verif (harness module with replace go.uber.org/dig => /repo)",
    "baseline_off_cmd": "/verif/tools/baseline.sh",
-   "source_commits": ["171c908", "b5c7647"],
+   "source_commits": ["171c908", "b5c7647", "094fcbe"],
    "add_only": True
  },
  "engines": [{"name": "dig-tla", "path": "/verif/spec", "serves_properties": sorted(props.keys()),
